@@ -10,7 +10,11 @@
 //! (a) every path is one model case (stream "hist"): per op (result, frame_count, next_frame_id),
 //!     log-region size, vector index as search_vec / frame_embedding see it, and at commit /
 //!     finalize / reopen the timeline ids and the engine's documents (probe-word search);
-//! (b) property oracle: any pairwise difference between the batteries of the three files;
+//! (b) property oracle: any pairwise difference between the batteries of the three files (no known
+//!     class since fix ed861c9: a skip path that loses embeddings is a plain violation again);
+//!     one document set in four additionally runs the BOUNDARY history puts / commit_skip_indexes /
+//!     close + reopen / finalize_indexes (model comparison; oracle on frames, timeline and word
+//!     searches only: the embeddings of the batch exist in memory only inside that window);
 //! (c) stream "presize": begin_batch { wal_pre_size_bytes } on a memory that already holds
 //!     frames: new log size and payload offsets against ensure_wal_capacity / adjust_offsets,
 //!     contents unchanged (oracle).
@@ -262,7 +266,7 @@ fn gen_docs(r: &mut Rng, profile: u64) -> Vec<Doc> {
         // timestamps: mostly increasing, with ties and out-of-order values
         let ts = 1_700_000_000 + match r.below(6) { 0 => 0, 1 => (i as i64) / 3, 2 => 500 - i as i64, _ => i as i64 * 10 + r.below(10) as i64 };
         let c = i as f32 + 1.0;
-        let emb = if r.below(10) < p_emb { Some(match r.below(5) { 0 => vec![c, -0.0, 0.0, 1.0], 1 => vec![0.0, 0.0, 0.0, c], _ => vec![c, (r.below(200) as f32 - 100.0) / 8.0, (r.below(1000) as f32) / 16.0, -c / 2.0] }) } else { None };
+        let emb = if profile != 0 && r.chance(1, 25) { Some(vec![]) } else if r.below(10) < p_emb { Some(match r.below(5) { 0 => vec![c, -0.0, 0.0, 1.0], 1 => vec![0.0, 0.0, 0.0, c], _ => vec![c, (r.below(200) as f32 - 100.0) / 8.0, (r.below(1000) as f32) / 16.0, -c / 2.0] }) } else { None };
         let default_opts = r.chance(1, 8) && !matches!(kind, PayloadKind::Bin);
         Doc { kind, size, uri, ts, emb, default_opts, tag: 1000 * (i as u64 + 1) }
     }).collect()
@@ -305,10 +309,19 @@ pub fn run(seed: u64, n: usize, w: &mut dyn std::io::Write) {
         let mut words: Vec<String> = vec![PROBE.to_string()];
         for _ in 0..5 { words.push(WORDS[r.below(16) as usize].to_string()); }
         for _ in 0..4 { words.push(format!("doc{}", docs[r.below(nd as u64) as usize].tag)); }
-        let embedded: Vec<&Doc> = docs.iter().filter(|d| d.emb.is_some()).collect();
+        let embedded: Vec<&Doc> = docs.iter().filter(|d| d.emb.as_ref().is_some_and(|e| !e.is_empty())).collect();
         let vqs: Vec<Vec<f32>> = (0..3).map(|k| if embedded.is_empty() { vec![k as f32, 1.0, 2.0, 3.0] } else { let mut e = embedded[r.below(embedded.len() as u64) as usize].emb.clone().unwrap(); if k == 2 { e[1] += 0.25; } e }).collect();
 
-        let runs = [("plain", run_path(&docs, &plain, &words, &vqs)), ("batch", run_path(&docs, &batch, &words, &vqs)), ("skip", run_path(&docs, &skip, &words, &vqs))];
+        let mut runs = vec![("plain", run_path(&docs, &plain, &words, &vqs)), ("batch", run_path(&docs, &batch, &words, &vqs)), ("skip", run_path(&docs, &skip, &words, &vqs))];
+        if i % 4 == 1 {
+            // the boundary: close + reopen between a commit_skip_indexes and finalize_indexes
+            let mut win: Vec<BOp> = vec![];
+            let cut = r.range(1, nd as u64) as usize;
+            for k in 0..nd { win.push(BOp::Put(k)); if k + 1 == cut || k + 1 == nd { win.push(BOp::Skip); } if k + 1 == cut { win.push(BOp::Reopen); } }
+            if cut == nd { /* reopen already placed after the last skip */ } else if r.chance(1, 2) { win.push(BOp::Reopen); }
+            win.push(BOp::Finalize); win.push(BOp::Reopen);
+            runs.push(("window", run_path(&docs, &win, &words, &vqs)));
+        }
         let has_emb = !embedded.is_empty();
         for (name, pr) in runs.iter() {
             let mut viol: Option<String> = pr.err.clone().map(|e| format!("op-failed: {} path: {}", name, e));
@@ -326,8 +339,9 @@ pub fn run(seed: u64, n: usize, w: &mut dyn std::io::Write) {
                 }
                 if !diffs.is_empty() {
                     let text = format!("{} path differs from plain puts + commit on {} documents: {}", name, nd, diffs.join("; "));
-                    // narrow class: the history used commit_skip_indexes, some document has an embedding, and ONLY vector search differs
-                    if *name == "skip" && pr.skip_commits > 0 && has_emb && only_vec { viol = Some(format!("skip-commit-drops-embeddings: {}", &text[..text.len().min(900)])); tags.push("known-class".into()); }
+                    // inside the window (reopen between commit_skip_indexes and finalize_indexes) the vector index is outside the statement
+                    if *name == "window" && only_vec { tags.push("window-lost-embeddings".into()); }
+                    else if *name == "skip" && pr.skip_commits > 0 && has_emb && only_vec { viol = Some(format!("skip-commit-drops-embeddings: {}", &text[..text.len().min(900)])); }
                     else { viol = Some(format!("bulk-path-differs: {}", &text[..text.len().min(1200)])); }
                 }
             }
@@ -390,6 +404,18 @@ fn probe() {
     for k in 0..3u64 { p.mem().put_with_embedding_and_options(&text_payload(100, 1000 * (k + 1)), vec![k as f32 + 1.0, 0.0, 0.0, 1.0], Driver::options(None, 1_700_000_000 + k as i64, false)).expect("put"); }
     p.mem().commit().expect("commit");
     eprintln!("probe1 plain: search_vec -> {:?}", p.mem().search_vec(&[1.0, 0.0, 0.0, 1.0], 10).map(|h| h.iter().map(|x| x.frame_id).collect::<Vec<_>>()).map_err(|e| e.to_string()));
+    // (1b) embedded puts, commit_skip_indexes, close + reopen, finalize_indexes
+    {
+        let mut d = Driver::new();
+        for k in 0..3u64 { d.mem().put_with_embedding_and_options(&text_payload(100, 1000 * (k + 1)), vec![k as f32 + 1.0, 0.0, 0.0, 1.0], Driver::options(None, 1_700_000_000 + k as i64, false)).expect("put"); }
+        d.mem().commit_skip_indexes().expect("skip");
+        eprintln!("probe1b after skip: search_vec -> {:?}", d.mem().search_vec(&[1.0, 0.0, 0.0, 1.0], 10).map(|h| h.iter().map(|x| x.frame_id).collect::<Vec<_>>()).map_err(|e| e.to_string()));
+        let m = d.mem.take().unwrap(); drop(m);
+        d.mem = Some(memvid_core::Memvid::open(&d.path).expect("open"));
+        eprintln!("probe1b after reopen: search_vec -> {:?}", d.mem().search_vec(&[1.0, 0.0, 0.0, 1.0], 10).map(|h| h.iter().map(|x| x.frame_id).collect::<Vec<_>>()).map_err(|e| e.to_string()));
+        d.mem().finalize_indexes().expect("finalize");
+        eprintln!("probe1b skip, reopen, finalize: search_vec -> {:?} frames {}", d.mem().search_vec(&[1.0, 0.0, 0.0, 1.0], 10).map(|h| h.iter().map(|x| x.frame_id).collect::<Vec<_>>()).map_err(|e| e.to_string()), d.mem().frame_count());
+    }
     // (2) begin_batch(pre-size) on a non-empty memory, then a rebuild with no payload insert
     let mut q = Driver::new();
     let a = text_payload(300, 1000); q.mem().put_bytes_with_options(&a, Driver::options(None, 1, false)).expect("put"); q.mem().commit().expect("commit");
